@@ -110,6 +110,7 @@ def simulate (g : Group) (phase cause : String) (notif : List Nat) (at? : Option
     | "parked" => m.act c (.recvOff 2)
     | "parkedfut" => m.act c (.recvOff 2)
     | "queued" => (List.range nreq).foldl (fun m j => m.acts c [.recvInline, .inlineReturn (some (10 + j))]) m
+    | "backlog" => (List.range nreq).foldl (fun m j => m.acts c [.recvInline, .inlineReturn (some (10 + j))]) m
     | _ => m
   -- the strike
   let m := if isCancelCause g cause && phase != "connecting" then m.act c .parentCancel else m
@@ -252,11 +253,13 @@ def rxStep (g : Group) (idx : String) : List String → Group × String
   -> `<idx> accept hooks=1/1 ctx=<path>?who=7 err=h0c<0|1>`  |  `<idx> reject hooks=0/0 ctx=- err=h1c0` -/
 def hsStep (idx cfg req end_ : String) : String :=
   let cfg := if cfg == "-" then "" else cfg
-  if !(end_ == "close" || end_ == "malformed" || end_ == "text") then idx ++ " bad-op" else
+  if !(end_ == "close" || end_ == "malformed" || end_ == "text" || end_ == "frag1" || end_ == "frag3") then idx ++ " bad-op" else
   if pathAccepted cfg.toList req.toList then
     -- accepted: one connect / one disconnect, the handshake-aware hook sees the request's path and query;
     -- the built-in loop reports one Connection error iff the reader returned Err
-    let cause : Cause := if end_ == "close" then .close else if end_ == "text" then .protocolViolation else .malformedFrame
+    -- `frag1`/`frag3`: the upgrade request arrives in pieces (immaterial), then the socket is dropped
+    let cause : Cause := if end_ == "close" then .close else if end_ == "text" then .protocolViolation
+      else if end_.startsWith "frag" then .socketError else .malformedFrame
     let m := (Sim.mk init true none none).acts ⟨Gen.Lifecycle.facts, 2, 1, 64, false⟩
       [.handshakeOk, .hookStart, .hookReturn, .hookStart, .hookReturn, .enterReader, .readerExit cause, .writerFinish, .writerJoined]
     let nc := (m.st.trace.filter (fun e => match e with | .connect 0 => true | _ => false)).length
@@ -270,6 +273,16 @@ def step (g : Group) (ws : List String) : Group × String :=
   match ws with
   | "rx" :: idx :: rest => rxStep g idx rest
   | ["hs", idx, cfg, req, end_] => (g, hsStep idx cfg req end_)
+  | ["hsrun", idx, nrej, nacc] =>
+    -- nrej failed handshakes (each: `handshakeFail`, no hook), then nacc accepted connections, each its own run of the model
+    let (nrej, nacc) := (natOf nrej, natOf nacc)
+    let rej := (Sim.mk init true none none).act ⟨Gen.Lifecycle.facts, 1, 1, 64, false⟩ .handshakeFail
+    let acc := (Sim.mk init true none none).acts ⟨Gen.Lifecycle.facts, 1, 1, 64, false⟩
+      [.handshakeOk, .hookStart, .hookReturn, .enterReader, .recvInline, .inlineReturn (some 1), .readerExit .close, .writerFinish, .writerJoined]
+    let perAccC := (acc.st.trace.filter (fun e => match e with | .connect _ => true | _ => false)).length
+    let perAccD := (acc.st.trace.filter (fun e => match e with | .disconnect _ _ => true | _ => false)).length
+    let distinct := Gen.Lifecycle.peerIdFetchAdd && (mintIds 0 nacc).eraseDups.length == nacc
+    (g, s!"{idx} rejects={nrej} herr={nrej} hooks={rej.st.trace.length * nrej + perAccC * nacc}/{perAccD * nacc} ids={if distinct then "distinct" else "collide"}")
   | ["burst", idx, entry, n, end_] =>
     if !(entry == "adopt" || entry == "listener") || !(end_ == "drop" || end_ == "close" || end_ == "mix") then (g, idx ++ " bad-op") else
     -- n connections minted concurrently: ids from the shared counter, each connection its own lifecycle
